@@ -35,7 +35,7 @@ class Scenario:
         conf = config.GlobalStack()
         conf.set("locks.steal_dead", bool(steal))
         self.noncemap = {}          # nonce -> [proc, attempt]
-        self.mk = {p: 0 for p in self.lockers + self.breakers}
+        self.mk = self.att = {p: 0 for p in self.lockers + self.breakers}
         self.results = {p: "none" for p in self.lockers + self.breakers}
         self.examined = {}          # proc -> nonce passed to force_break (last call)
         self.fb_calls = []          # (proc, via, info dict)
@@ -117,6 +117,7 @@ class Scenario:
             def prog():
                 for _ in range(max_attempts):
                     try:
+                        self.att[p] += 1
                         info = l.peek()
                         if info is None:
                             self.results[p] = "nothing_to_break"
@@ -164,7 +165,8 @@ class Scenario:
                 info = self._owner(t.get_bytes(name + "/info"))
             except Exception:
                 info = NONE
-            st["tmpdirs"].append({"kind": kind, "owner": self.dir_owner.get(name, "?"), "info": info})
+            own = self.dir_owner.get(name, ["?", 0])
+            st["tmpdirs"].append({"kind": kind, "owner": own[0], "n": own[1], "info": info})
         st["tmpdirs"].sort(key=repr)
         st["lockHeld"] = {p: bool(self.L[p].is_held) for p in self.L}
         return st
@@ -194,11 +196,11 @@ class Scenario:
         for e in entries:
             self.events.append(e)
             if e["op"] == "mkdir" and e["res"] == "ok":
-                self.dir_owner[e["path"].split("/")[-1]] = e["p"]
+                self.dir_owner[e["path"].split("/")[-1]] = [e["p"], self.att[e["p"]]]
             if e["op"] == "rename" and e["res"] == "ok":
                 src, dst = e["path"].split("/")[-1], e["to"].split("/")[-1]
                 if dst != "held":
-                    self.dir_owner[dst] = e["p"]
+                    self.dir_owner[dst] = [e["p"], self.att[e["p"]]]
                 if src == "held":
                     self._moved_held(e["p"], dst, before)
         return entries[0] if entries else None
@@ -307,7 +309,7 @@ def _copy_tree(src, dst, path):
 def spec_projection(state):
     """The part of a spec state that the real world exposes, in the shape of Scenario.project()."""
     s = to_py(state)
-    tm = [{"kind": d["kind"], "owner": d["owner"], "info": list(d["info"])} for d in s["tmpdirs"]]
+    tm = [{"kind": d["kind"], "owner": d["owner"], "n": d["n"], "info": list(d["info"])} for d in s["tmpdirs"]]
     tm.sort(key=repr)
     return {"held": list(s["held"]), "tmpdirs": tm, "lockHeld": dict(s["lockHeld"])}
 
